@@ -30,11 +30,14 @@ CLAIM = dict(
          "id list, the decoded message's effects equal the reference reading — arithmetic, not enumeration); "
          "colour_readability_bit_irrelevant; brightness_one_two (model and Spec); nongrammar_silent (any line whose "
          "keyword/key is not in the grammar yields at most the empty message and no effect, decoder and reader, pinned and "
-         "repaired tree); dec_sound_partial: for line sequences of ANY length consisting of non-grammar lines and "
-         "well-formed lines of every family except HWCt# text and HWCg*# graphics lines, effects(decIn ls) = "
-         "Spec.readInbound ls, one effect group per line in line order. NOT proved (rests on correspondence only, EQ+H1 "
-         "on every generated record incl. all prefix lengths 0..21 and both graphics formats): the same statement for text "
-         "and graphics lines (full dec_sound kept as a comment in Props/C02.lean).",
+         "repaired tree); dec_sound: for line sequences of ANY length in the domain Spec.inDomainLines (every line non-grammar or "
+         "well-formed, every family incl. 21-field HWCt# text lines and HWCg*# graphics transfers interleaved with other lines), "
+         "effects(decIn ls) = Spec.readInbound ls, one effect group per line in line order, under the explicit decidable guard "
+         "noBlankImage (no delivered image is the all-default 0x0 mono image with empty data, to which the Spec assigns no "
+         "effect); dec_sound_guard_exact: the guard is the weakest possible; dec_sound_blank_image_counterexample: the unguarded "
+         "statement is false of model and Spec on HWCg#1=0/0,0x0: (a Spec limitation, not a decoder defect: the decoder "
+         "reassembles that image exactly); dec_sound_nb: unguarded form with the reader's output minus such deliveries; "
+         "text_total: decText agrees with the reference reader on every well-formed text value.",
     note=TB + "Lines with a grammar keyword and malformed arguments are outside the domain (C06 covers them: no panic, no "
          "nil message). Enum-valued command arguments are read modulo 2^32 (protobuf enums are int32).",
     technique="Lean 4 proof (shape lemmas for the byte matchers, numeral/Atoi lemmas, bit-field arithmetic) + "
